@@ -644,8 +644,18 @@ func genPacks() {
 	r := run.Rand.Fork()
 	n := run.Scale(2500, 100000)
 	for i := 0; i < n; i++ {
-		packCase(randSpec(r))
+		sp := randSpec(r)
+		// histories: a few different calls one after the other on the same target (not the file
+		// store, whose names would have to be tracked across calls by the oracle)
+		if chain == nil && sp.Target != "file" && r.Chance(1, 5) {
+			startChain(sp.Target)
+		}
+		packCase(sp)
+		if chain != nil && (len(chain.prev) >= 4 || r.Chance(1, 3)) {
+			endChain()
+		}
 	}
+	endChain()
 }
 
 // enumFaults (both tiers): every target kind x every fault position x every fault error class on the
@@ -795,6 +805,24 @@ func main() {
 					sp.Backed = map[string]string{}
 				}
 				sp.decodeHex()
+				if len(sp.Prev) > 0 { // a call of a history: replay its predecessors on one target first
+					startChain(sp.Target)
+					for _, pj := range sp.Prev {
+						var ps spec
+						if err := json.Unmarshal([]byte(pj), &ps); err != nil {
+							panic(err)
+						}
+						if ps.Backed == nil {
+							ps.Backed = map[string]string{}
+						}
+						ps.decodeHex()
+						packCase(&ps)
+					}
+					sp.Prev = nil
+					packCase(&sp)
+					endChain()
+					continue
+				}
 				packCase(&sp)
 			case "U", "J", "B":
 				utf8Case(common.UnHex(c["hex"]))
@@ -826,7 +854,7 @@ func floors() {
 	want := map[string]int{"result_ok": 500, "result_storage-error": 100, "result_invalid-datetime": 50, "result_invalid-media-type": 50,
 		"result_unsupported": 20, "result_missing-artifact-type": 20, "target_memory": 50, "target_oci": 50, "target_file": 50,
 		"target_registry": 50, "target_oci+exists": 50, "target_file+exists": 50, "target_registry+exists": 50, "copy_checked": 300,
-		"determinism_checked": 300, "history_second_call": 300, "idempotence_checked": 200, "registry_validating": 50, "file_named_blob": 50, "file_titled_config": 30, "file_titled_manifest": 10, "file_duplicate_name": 20, "enumerated_file_titles": 200, "prefilled": 300, "non_utf8_input": 50, "sha512_descriptor": 50, "config_empty_media_type": 10,
+		"determinism_checked": 300, "history_second_call": 300, "history_chained_call": 150, "idempotence_checked": 200, "registry_validating": 50, "file_named_blob": 50, "file_titled_config": 30, "file_titled_manifest": 10, "file_duplicate_name": 20, "enumerated_file_titles": 200, "prefilled": 300, "non_utf8_input": 50, "sha512_descriptor": 50, "config_empty_media_type": 10,
 		"enumerated": 1000, "enumerated_faults": 1000, "time_accepted": 1000, "parse_accepted": 1000, "parse_rejected": 1000, "time_rejected": 1000, "mediatype_valid": 1000,
 		"mediatype_invalid": 1000, "utf8_coerced": 500, "json_string": 1000, "format_valid": 1000, "format_invalid": 20, "base64": 1000, "utf8_unchanged": 100}
 	var low []string
